@@ -72,7 +72,7 @@ class Bench:
         self.noise = noise
         self.loop = self.net.loop
         self.login = login
-        params = ConnectionParams(addresses=["10.0.0.1"], port=6053, password="pw" if login else None,
+        params = ConnectionParams(addresses=common.address_form(), port=6053, password="pw" if login else None,
                                   client_info="verif", keepalive=keepalive, zeroconf_manager=ZeroconfManager(),
                                   noise_psk=("QRTIErOb/fcE9Ukd/5qA3RGYMn0Y+p06U58SCtOXvPc=" if noise else None),
                                   expected_name=EXPECTED)
